@@ -34,6 +34,15 @@ def mutable_globals():
                               float, tuple, frozenset, type(None), Enum)):
                 continue
             out['%s.%s' % (mn, k)] = v
+        # class-level data attributes of the classes defined in the module (shared by all instances)
+        for k, v in list(vars(mod).items()):
+            if isinstance(v, type) and getattr(v, '__module__', None) == mn and not issubclass(v, Enum):
+                for a, x in vars(v).items():
+                    if a.startswith('__') or a in ('_abc_impl',) or callable(x) or \
+                            isinstance(x, (property, staticmethod, classmethod, types.MemberDescriptorType,
+                                           types.GetSetDescriptorType)):
+                        continue
+                    out['%s.%s.%s' % (mn, k, a)] = x
     return out
 
 
@@ -82,6 +91,78 @@ def mk_globals(enc, arch=7):
     return fn
 
 
+def _reg_values(arm):
+    """{name: value} of every AbstractRegister (and list of them) plus the core registers of an instance"""
+    from armulator.armv6.all_registers.abstract_register import AbstractRegister
+    out = {}
+    for k, v in sorted(vars(arm.registers).items()):
+        if isinstance(v, AbstractRegister):
+            out[k] = (v.value, v.length)
+        elif isinstance(v, list) and v and isinstance(v[0], AbstractRegister):
+            for i, x in enumerate(v):
+                out['%s[%d]' % (k, i)] = (x.value, x.length)
+        elif k == '_R':
+            for rn, x in v.items():
+                out['R.%s' % getattr(rn, 'name', rn)] = (x, 32)
+    return out
+
+
+def mk_construct(own=None, foreign=None, sym=('SCTLR', 'VBAR', 'ACTLR', 'DACR', 'TTBCR'), foreign_steps=0):
+    """construction isolation: an instance B built from configuration X after ANOTHER instance A (configuration Y
+    whose reset-value numerals are arbitrary: the file contents are the nondeterministic environment) has been
+    built (and stepped) starts in exactly the state of a B built alone"""
+    own = own or dict(arch=7, vmsa=True)
+    foreign = foreign or dict(arch=6)
+
+    def fn(env):
+        import json
+        import os
+        from armulator.armv6.configurations import Configurations
+        from armulator.armv6.arm_v6 import ArmV6
+        fcfg, fov = MC.std_cfg(**foreign)
+        fpath = MC.config_path(**fov)
+        ocfg, oov = MC.std_cfg(**own)
+        conf = json.loads(json.dumps(MC.BASE_CONFIG))
+        conf.update(oov)
+        conf['reset_values'] = {'MIDR': MC.BASE_CONFIG['reset_values']['MIDR']}
+        opath = os.path.join(MC._tmp(), 'own-%d.json' % os.getpid())
+        with open(opath, 'w') as f:
+            json.dump(conf, f)
+        B0 = ArmV6(opath)
+        base = _reg_values(B0)
+        orig_load = Configurations.load
+
+        def load(self, path):
+            orig_load(self, path)
+            if path == fpath:
+                rv = dict(self.configs['reset_values'])
+                for n in sym:
+                    rv[n] = env.var('reset_' + n, 32)
+                self.configs['reset_values'] = rv
+        Configurations.load = load
+        try:
+            A = ArmV6(fpath)
+            for _ in range(foreign_steps):
+                try:
+                    A.emulate_cycle()
+                except Exception as ex:  # whatever the foreign instance does is irrelevant here
+                    from vf.unit import from_code
+                    if not from_code(ex):
+                        raise
+            B = ArmV6(opath)
+        finally:
+            Configurations.load = orig_load
+        got = _reg_values(B)
+        cl = [holds('same set of registers', z3.BoolVal(sorted(got) == sorted(base)))]
+        from vf.unit import eq
+        for k in sorted(base):
+            if k in got:
+                cl.append(eq('initial %s of an instance built after a foreign one' % k, got[k][0],
+                             z3.BitVecVal(base[k][0], max(base[k][1], 32)), max(base[k][1], 32)))
+        return cl
+    return fn
+
+
 def units(tier, seed=0):
     T = list(step.FAMILIES)
     step.load_tables(T)
@@ -107,6 +188,13 @@ def units(tier, seed=0):
         if r in ISA:
             us += famcheck.family_units({ISA[r].family}, [7], T, only=[r], tag='/prehistory', prehistory='other-iset',
                                         fix=fx)
+    # construction isolation: an instance built after a foreign one starts in the state of one built alone
+    us.append(UnitSpec('construct/after-foreign/v6-pmsa', 'vf.c20', 'mk_construct', {}))
+    us.append(UnitSpec('construct/after-foreign/same-cfg-stepped', 'vf.c20', 'mk_construct',
+                       dict(foreign=dict(arch=7, vmsa=True), foreign_steps=1, sym=['VBAR', 'DACR'])))
+    if tier == 'thorough':
+        us.append(UnitSpec('construct/after-foreign/nosec', 'vf.c20', 'mk_construct',
+                           dict(own=dict(arch=7, sec=False), foreign=dict(arch=7, virt=True))))
     # isolation: another instance created between construction and step
     iso = ['MovRegisterArmA1', 'LdrImmediateArmA1', 'BxA1', 'SvcA1', 'StrRegisterT2', 'AdcRegisterA1']
     iso = [r for r in iso if r in ISA]
@@ -127,11 +215,13 @@ META = {
                    'is a function of configuration, architectural state and memory only -- so nothing executed before '
                    'a snapshot can influence the trace after it; a symbolic run is itself a function of its declared '
                    'inputs, and every counterexample is replayed in a fresh process. (b) No global writes: all '
-                   'mutable module-level objects of armulator.* (found by reflection) are snapshotted around the step '
+                   'mutable module-level objects and class-level data attributes of armulator.* (found by reflection) are snapshotted around the step '
                    'on every explored path and must be unchanged. (c) Isolation: a second instance is created between '
                    'construction and step. With an equal configuration the step is unaffected; together with (a) and '
                    '(b) every interleaving of two equally-configured instances gives each its solo trace (each step '
-                   'reads and writes only the instance own objects). With a DIFFERENT configuration the step changes: '
+                   'reads and writes only the instance own objects). Construction isolation: an instance built after a '
+                   'foreign instance whose configured reset values are arbitrary (symbolic file contents) starts in '
+                   'exactly the state of an instance built alone. With a DIFFERENT configuration the step changes: '
                    'this is the module-level configuration singleton, a known finding (F015).',
     'bounds': ['scratch havoc on a 38-row sample (quick) / every row (thorough), arch 7', 'thread-level schedules are '
                'outside the technique (sequential symbolic execution); interleavings at step granularity are covered '
